@@ -16,6 +16,7 @@ CONSTANTS
   MaxStall = 2
   MaxSweep = 3
   MaxLeave = 1
-  MaxPubB = 2
+  MaxPubB = 1
 INVARIANTS Quiescent QueueBound WholeUnits
 VIEW GView
+ACTION_CONSTRAINT Emit
